@@ -174,6 +174,25 @@ func (env *SpecEnv) eval(e *SExpr, hint types.Type) Val {
 		case "^":
 			x := env.eval(e.Args[0], hint)
 			return Val{T: x.T, S: app("bvnot", x.S)}
+		case "&":
+			// address of a struct-valued field of a pointed-to struct: &p.f
+			se := e.Args[0]
+			if se.Op != "sel" {
+				env.fail(e, "& needs p.field")
+			}
+			b := env.eval(se.Args[0], nil)
+			pt, ok := under(b.T).(*types.Pointer)
+			if !ok {
+				env.fail(e, "& needs a pointer base")
+			}
+			st := under(pt.Elem()).(*types.Struct)
+			for i := 0; i < st.NumFields(); i++ {
+				if st.Field(i).Name() == se.Name {
+					f := vc.declareFun(fmt.Sprintf("addr:%s.%d", structName(pt.Elem()), i), []string{sInt}, sInt)
+					return Val{T: tMathInt, S: app(f, b.S)}
+				}
+			}
+			env.fail(e, "no field %s", se.Name)
 		}
 	case "bin":
 		return env.bin(e, hint)
@@ -272,6 +291,11 @@ func (env *SpecEnv) ident(e *SExpr, hint types.Type) Val {
 		t := vc.P.resolveGhostType(gv)
 		srt := env.mathSort(t)
 		comp := vc.comp("G:"+gv.Name, srt)
+		pkg, ty := gv.Pkg, gv.Type
+		vc.compMath["G:"+gv.Name] = func(v2 *VC) {
+			e2 := newSpecEnv(v2, pkg)
+			e2.mathSort(v2.P.resolveType(pkg, ty))
+		}
 		return Val{T: t, S: vc.get(env.mem, comp), Math: true}
 	}
 	// package-level object
@@ -580,7 +604,7 @@ func (env *SpecEnv) call(e *SExpr, hint types.Type) Val {
 			return Val{T: tInt, S: app("scap", a.S)}
 		case *types.Map:
 			_, _, card := vc.mapComps(u)
-			return Val{T: tInt, S: app("select", vc.get(env.mem, card), a.S)}
+			return Val{T: tInt, S: ite(eq(a.S, "0"), bvLit(64, 0), app("select", vc.get(env.mem, card), a.S))}
 		case *types.Basic:
 			l := vc.declareFun("strlen", []string{sStr}, sBV64)
 			return Val{T: tInt, S: app(l, a.S)}
@@ -595,7 +619,29 @@ func (env *SpecEnv) call(e *SExpr, hint types.Type) Val {
 		}
 		k := env.eval(args[1], mt.Key())
 		dom, _, _ := vc.mapComps(mt)
-		return Val{T: tBool, S: app("select", app("select", vc.get(env.mem, dom), m.S), k.S)}
+		return Val{T: tBool, S: and(not(eq(m.S, "0")), app("select", app("select", vc.get(env.mem, dom), m.S), k.S))}
+	case "struct":
+		// struct(T, f0, f1, ...): a struct value
+		if len(args) < 1 {
+			env.fail(e, "struct(T, fields...)")
+		}
+		tt := args[0].Name
+		if args[0].Op != "type" && args[0].Op != "ident" {
+			tt = args[0].Src
+		}
+		t := env.resolveType(tt)
+		st, ok := under(t).(*types.Struct)
+		if !ok || st.NumFields() != len(args)-1 {
+			env.fail(e, "struct(): wrong type or field count")
+		}
+		var fs []string
+		for i, a := range args[1:] {
+			fs = append(fs, env.eval(a, st.Field(i).Type()).S)
+		}
+		return Val{T: t, S: vc.mkStruct(t, fs)}
+	case "modifies_only":
+		// every component agrees with its entry value outside the listed regions (refs allocated at entry)
+		return Val{T: tBool, S: env.modifiesOnly(args)}
 	case "fresh":
 		need(1)
 		r := env.refOf(args[0])
@@ -906,4 +952,56 @@ func (env *SpecEnv) elemsRegion(s Val, lo, hi string) region {
 		flo, fhi = app("bvmul", flo, bvLit(64, uint64(n))), app("bvmul", fhi, bvLit(64, uint64(n)))
 	}
 	return region{kind: "elems", comp: comp, comps: []string{comp}, ref: app("sarr", s.S), lo: flo, hi: fhi}
+}
+
+func (env *SpecEnv) modifiesOnly(args []*SExpr) string {
+	vc := env.vc
+	oenv := env.withMem(env.old)
+	byComp := map[string][]region{}
+	for _, a := range args {
+		for _, r := range oenv.region(a) {
+			for _, c := range r.comps {
+				byComp[c] = append(byComp[c], r)
+			}
+		}
+	}
+	brk0 := vc.get(env.old, vc.brkComp())
+	var cs []string
+	for _, c := range sortedKeys(vc.compSort) {
+		if immutableComp(c) || c == "brk" || strings.HasPrefix(c, "G:iter:") {
+			continue
+		}
+		n, o := vc.get(env.mem, c), vc.get(env.old, c)
+		if n == o {
+			continue
+		}
+		rs := byComp[c]
+		whole := false
+		for _, r := range rs {
+			if r.kind == "ghost" {
+				whole = true
+			}
+		}
+		if whole {
+			continue
+		}
+		srt := vc.compSort[c]
+		switch {
+		case strings.HasPrefix(c, "M:"):
+			var in []string
+			for _, r := range rs {
+				in = append(in, and(eq("_r", r.ref), app("bvule", r.lo, "_j"), app("bvult", "_j", r.hi)))
+			}
+			cs = append(cs, fmt.Sprintf("(forall ((_r Int) (_j (_ BitVec 64))) (! (=> (and (< _r %s) (not %s)) (= (select (select %s _r) _j) (select (select %s _r) _j))) :pattern ((select (select %s _r) _j))))", brk0, or(in...), n, o, n))
+		case strings.HasPrefix(srt, "(Array Int "):
+			var in []string
+			for _, r := range rs {
+				in = append(in, eq("_r", r.ref))
+			}
+			cs = append(cs, fmt.Sprintf("(forall ((_r Int)) (! (=> (and (< _r %s) (not %s)) (= (select %s _r) (select %s _r))) :pattern ((select %s _r))))", brk0, or(in...), n, o, n))
+		default:
+			cs = append(cs, eq(n, o))
+		}
+	}
+	return and(cs...)
 }
